@@ -440,7 +440,8 @@ fn main() {
     let seed = seed_from_env();
     let quick = arg_or("--tier", "quick") != "thorough";
     let seeds: u64 = if quick { 40 } else { 200 };
-    let reps: u64 = if quick { 1 } else { 3 }; // samples per constructed sampler beyond the first
+    let reps: u64 = if quick { 1 } else { 8 }; // samples per constructed sampler beyond the first
+    let std_seeds: u64 = if quick { seeds } else { 4 * seeds };
     let mut ctr: u64 = 0;
     let fresh = |ctr: &mut u64| {
         *ctr += 1;
@@ -450,8 +451,8 @@ fn main() {
     for node in NODES {
         for t in ["f32", "f64"] {
             let mut lat = Sm64::new(mix(seed, node.len() as u64 * 131 + node.as_bytes()[0] as u64, if t == "f32" { 32 } else { 64 }));
-            // Standard: `seeds` generators, every fourth also Alpha-wrapped
-            for s in 0..seeds {
+            // Standard: `seeds` (thorough: 4 x) generators, every fourth also Alpha-wrapped
+            for s in 0..std_seeds {
                 let job = Job { node, uniform: false, incl: false, alpha: false, lo: vec![], hi: vec![], src: fresh(&mut ctr) };
                 run(&job, t, &mut out);
                 if s % 4 == 0 {
